@@ -89,14 +89,25 @@ def check(R, F):
     # increments: +1 for single records, +n_added for RRsets
     for name, field, kind in [('add_answer_rr', 'ancount', 1), ('add_authority_rr', 'nscount', 1), ('add_additional_rr', 'arcount', 1), ('add_answer_rrset', 'ancount', 'n'), ('add_authority_rrset', 'nscount', 'n'), ('add_additional_rrset', 'arcount', 'n')]:
         c = F.fn(W + name + '::{closure#0}')
-        ws = [(b, st) for b, bl in enumerate(c.blocks) if not bl['cleanup'] for st in bl['stmts'] if st['k'] == 'assign' and st['lhs']['p'] and st['lhs']['p'][-1].get('n') == field]
+        ws = [(b, i_, st) for b, bl in enumerate(c.blocks) if not bl['cleanup'] for i_, st in enumerate(bl['stmts']) if st['k'] == 'assign' and st['lhs']['p'] and isinstance(st['lhs']['p'][-1], dict) and st['lhs']['p'][-1].get('n') == field]
         ok = len(ws) == 1
         if ok:
-            v = paths.show_operand(c, ws[0][1]['rv']['op'])
-            if kind == 1:
-                ok = v == 'num::checked_add(arg2.%s,1_u16)@Some.0' % field
-            else:
-                ok = re.match(r"^num::checked_add\(arg2\.%s,cast\(Result<T, E>::branch\(Writer::add_rrset\(.*\)\)@Continue\.0\)\)@Some\.0$" % field, v) is not None
+            # the stored value is the Some-payload of checked_add(<the counter>, 1 | number of records add_rrset wrote),
+            # however the Option is unpacked (if let / ok_or()? / match)
+            from qv import origins
+            b0, i0, st0 = ws[0]
+            o = st0['rv']['op'] if st0['rv']['k'] == 'use' else None
+            lv = origins.trace(c, o['pl']['l'], origins.norm_path(o['pl']['p']), at=(b0, i0)) if o and is_place(o) else []
+            ok = len(lv) == 1 and lv[0][0] == 'call' and callee_name(lv[0][2]).endswith('>::checked_add') and lv[0][3] == [('down', 'Some'), ('f', 0)]
+            if ok:
+                t_ = lv[0][2]
+                a0 = paths.show_operand(c, t_['args'][0])
+                ok = a0.endswith('.' + field)
+                if kind == 1:
+                    ok = ok and const_int(t_['args'][1]) == 1
+                else:
+                    ok = ok and any(n_.endswith(W + 'add_rrset') for n_ in slice_of(c, t_['args'][1]).call_names())
+            ws = [(b0, st0)]
         R.require(ok, 'counts', W + name + '|increment', c.where(), '%s += %s (checked)' % (field, kind), '%s updates %s with %s' % (name, field, paths.show_operand(c, ws[0][1]['rv']['op']) if ws else None))
     ar = F.fn(W + 'add_rrset')
     incs = [(b, st) for b, bl in enumerate(ar.blocks) if not bl['cleanup'] for st in bl['stmts'] if st['k'] == 'assign' and not st['lhs']['p'] and st['rv']['k'] == 'use' and paths.show_operand(ar, st['rv']['op']) == 'Add(var:usize,1_usize)']
